@@ -346,3 +346,28 @@ PROPS["C13"] = dict(
     assumptions=["opaque URLs (mailto:, foo:bar) are skipped", "numeric (non-string) port arguments and the username/password setters are not modelled",
                  "hosts of the pathological form 'a:80:' (a port-like suffix inside the name part) are outside the host invariant"],
 )
+
+
+PROPS["C14"] = dict(
+    harness="urlres", module="Cases.C14Check", shard=100,
+    level_text="C14_resolve_is_rfc3986: for every base and reference over ordinary segments, the constructor's pipeline (cleanPath of the base and of "
+               "non-relative references, net/url's ResolveReference with its own case analysis, the fragment rule, the final fixURL) equals RFC 3986 "
+               "5.2.2 against the normalised base, per component; C14_clean_is_remove_dot_segments, C14_remove_dots_idempotent, "
+               "C14_ordinary_paths_closed; C14_rfc_examples (the specification reproduces the 42 normative examples of section 5.4); C14_source_tie",
+    level_note="Proof is about Model/UrlResolve.v (components; paths as segment lists) against Spec/Rfc3986.v (transform, merge, remove_dot_segments, "
+               "appendix-B parsing and recomposition). Go's resolvePath loop and path.Clean are modelled at segment level, net/url's string parser is "
+               "not modelled: the run feeds the model with net/url's parse and the specification with its own appendix-B parse of the same strings. "
+               "Scheme and host case folding, IDNA, default-port elision and percent-encoding are compared at run time against forms known by "
+               "construction of the generator.",
+    rule="base = scheme (5 special, sometimes upper-case) x userinfo x host form (names, upper-case, IDN, IPv4, IPv6) x port (none/default/other) x path "
+         "depth 0-3 over 22 segment forms (unreserved, sub-delims, percent-encoded, non-ASCII, dot-like names) x trailing slash x query x fragment; "
+         "reference = absolute / scheme-relative / path-absolute / path-relative with '.' and '..' segments / query-only / fragment-only / empty; 7% one-"
+         "argument calls incl. strings without a scheme; compared per component after percent-decoding; non-trivial = path-absolute or path-relative",
+    codes={"SpecFail1": "scheme differs from RFC 3986 5.2 / lower-casing", "SpecFail2": "authority differs (userinfo, host form, default port)",
+           "SpecFail3": "path differs (merge, dot segments, trailing slash)", "SpecFail4": "query differs", "SpecFail5": "fragment differs",
+           "Diff1": "model: scheme", "Diff3": "model: path", "Diff4": "model: query", "Diff5": "model: fragment", "Diff9": "net/url rejected a generated string",
+           "Implvalid-pair-rejected": "new URL threw on a pair of the grammar", "Implaccepted-string-without-scheme": "new URL(s) accepted a string without scheme"},
+    trusted=["net/url.Parse (string to components), golang.org/x/net/idna", "goja"],
+    assumptions=["outside the claim as in the property: empty path segments, percent-encoded '/' and '.', opaque paths, IPv4 number forms, back-slashes, "
+                 "the origin getter, a second '#' in a fragment"],
+)
